@@ -5,7 +5,7 @@ Generates first-order mutants of the analysed source (statement deletion, negate
 and/or swaps, integer +-1, boolean flips, dropped `not`), applies each as an in-memory overlay and runs every property's
 rules.  Prints one line per mutant: the properties that report it, or SILENT.
 
-usage: mutation_sweep.py [--files f1,f2] [--ops del,neg,cmp,bool,int,const,not] [--out FILE] [--limit N] [--jobs N]
+usage: mutation_sweep.py [--retest LOG (only mutants that were SILENT in an earlier log)] [--props C01,..] [--files f1,f2] [--ops del,neg,cmp,bool,int,const,not] [--out FILE] [--limit N] [--jobs N]
 """
 import ast
 import json
@@ -171,6 +171,8 @@ def main(argv):
     out = None
     limit = None
     jobs = 16
+    retest = None
+    only_props = None
     i = 0
     while i < len(argv):
         if argv[i] == '--files':
@@ -183,8 +185,12 @@ def main(argv):
             limit = int(argv[i + 1])
         elif argv[i] == '--jobs':
             jobs = int(argv[i + 1])
+        elif argv[i] == '--retest':
+            retest = argv[i + 1]
+        elif argv[i] == '--props':
+            only_props = argv[i + 1].split(',')
         i += 2
-    props = sorted(PROPERTIES)
+    props = only_props or sorted(PROPERTIES)
     basev = {'id': 'base', 'overlay': {}, 'edits': [], 'kind': 'twin', 'expect': None}
     base = {}
     for p in props:
@@ -196,6 +202,15 @@ def main(argv):
             print('missing', f)
             continue
         muts.extend(mutants_of(f, open(path, encoding='utf-8').read(), ops))
+    if retest:
+        import re
+        want = set()
+        for ln in open(retest):
+            mm = re.match(r'^SILENT\s+(\S+):(\d+) (\w+) \[(.+?)\] :: (.*)$', ln.rstrip('\n'))
+            if mm:
+                want.add((mm.group(1), int(mm.group(2)), mm.group(3), mm.group(4), mm.group(5)))
+        muts = [m for m in muts if (m['file'], m['line'], m['op'], m['what'],
+                                    m['orig'].replace('\n', ' ')[:90]) in want]
     if limit:
         muts = muts[:limit]
     print('%d mutants over %d files' % (len(muts), len(files)), flush=True)
